@@ -1,7 +1,11 @@
 (* Path validation of the receiver (internal/transfer/manifestproto.go
    validateRelPath), over byte strings.  Linux only: filepath.ToSlash is the
    identity and filepath.IsAbs is "starts with '/'", so the backslash clause of
-   the Go function is subsumed by the ".." substring test. *)
+   the Go function repeats the segment test on the same string.
+
+   validateRelPath rejects a path iff it is longer than maxRelPathLength, or
+   one of its '/'-separated segments is empty, "." or ".." (hasUnsafeSegment),
+   or it is absolute, or it is empty. *)
 From Coq Require Import ZArith List Bool Lia.
 From TF Require Import Lib.GoInt Gen.Consts.
 Import ListNotations.
@@ -10,18 +14,39 @@ Open Scope Z_scope.
 Definition SLASH : Z := 47.
 Definition DOT : Z := 46.
 
-Fixpoint has_dotdot (l : list Z) : bool :=
-  match l with
-  | a :: t => match t with
-              | b :: _ => ((a =? DOT) && (b =? DOT)) || has_dotdot t
-              | [] => false
-              end
-  | [] => false
+(* byte-string equality *)
+Fixpoint beqb (a b : list Z) : bool :=
+  match a, b with
+  | [], [] => true
+  | x :: a', y :: b' => (x =? y) && beqb a' b'
+  | _, _ => false
   end.
+
+(* strings.Split(p, "/"): never empty; "" gives [""] *)
+Fixpoint split (l : list Z) : list (list Z) :=
+  match l with
+  | [] => [[]]
+  | c :: t =>
+    if c =? SLASH then [] :: split t
+    else match split t with
+         | s :: r => (c :: s) :: r
+         | [] => [[c]]
+         end
+  end.
+
+Definition is_empty (s : list Z) : bool := match s with [] => true | _ => false end.
+Definition is_dot (s : list Z) : bool := beqb s [DOT].
+Definition is_dotdot (s : list Z) : bool := beqb s [DOT; DOT].
+
+(* a segment that is not a plain name *)
+Definition unsafe_seg (s : list Z) : bool := is_empty s || is_dot s || is_dotdot s.
+
+(* hasUnsafeSegment *)
+Definition has_unsafe_segment (p : list Z) : bool := existsb unsafe_seg (split p).
 
 Definition is_abs (l : list Z) : bool :=
   match l with a :: _ => a =? SLASH | [] => false end.
 
 Definition validate_rel_path (p : list Z) : bool :=
-  (Z.of_nat (length p) <=? c_maxRelPathLength) && negb (has_dotdot p) && negb (is_abs p) &&
-  negb (match p with [] => true | _ => false end).
+  (Z.of_nat (length p) <=? c_maxRelPathLength) && negb (has_unsafe_segment p) && negb (is_abs p) &&
+  negb (is_empty p).
